@@ -103,10 +103,10 @@ theorem split_flat_even (L : List α) (zero : α) (P n : Nat) (hP : 0 < P) (hn :
   have hnd : (Arr.flat L).ndim = 1 := rfl
   unfold Arr.split
   simp only [hne, Option.getD_none, hidx, Res.bind_ok, Nat.mul_mod_right, if_true]
-  rw [if_neg (by simp), if_neg (by omega)]
+  rw [if_neg (by simp [hnd]), if_neg (by omega)]
   simp only [Bool.false_eq_true, if_false]
   unfold Arr.arraySplit
-  rw [if_neg (by omega), if_neg (by simp)]
+  rw [if_neg (by omega), if_neg (by simp [hnd])]
   simp only [hne, hidx, Res.bind_ok, Bool.false_eq_true, if_false, hlen, Nat.div_self hpos, Option.getD_none,
     rollaxis_flat_id, sectionSizes_even P n hP, windows2_divPoints_even, hnd, if_true, Nat.mul_one]
   unfold Res.mapM'
